@@ -9,11 +9,13 @@ import (
 	"context"
 	"fmt"
 	"net"
+	"net/http"
 	"os"
 	"os/exec"
 	"path/filepath"
 	"strings"
 	"sync"
+	"sync/atomic"
 	"testing"
 	"time"
 
@@ -68,6 +70,8 @@ func repoDir() string {
 	return "/repo"
 }
 
+var poolSeq int64
+
 type poolProc struct {
 	cmd    *exec.Cmd
 	exited chan struct{}
@@ -110,7 +114,10 @@ func tryStartPool(host string, extra ...string) (*poolProc, error) {
 	for attempt := 0; attempt < 6; attempt++ {
 		p := &poolProc{addr: fmt.Sprintf("%s:%d", host, freePort()), exited: make(chan struct{})}
 		last = p
-		args := append([]string{"pool", "--store=memory", "--bind", p.addr}, extra...)
+		// the instance answers HTTP POSTs with this token in a header: proof that what listens on the port is the
+		// process started here and not another test process's pool that got the same port from the kernel
+		token := fmt.Sprintf("verif-%d-%d", os.Getpid(), atomic.AddInt64(&poolSeq, 1))
+		args := append([]string{"pool", "--store=memory", "--bind", p.addr, "--allow-origin", token}, extra...)
 		p.cmd = exec.Command(bin, args...)
 		p.cmd.Env = append(os.Environ(), "HOME="+os.TempDir())
 		pipe, _ := p.cmd.StderrPipe()
@@ -151,10 +158,30 @@ func tryStartPool(host string, extra ...string) (*poolProc, error) {
 			time.Sleep(30 * time.Millisecond)
 		}
 		if up {
-			// make sure it is OUR process that listens there (a process that lost the race for the port exits at once)
-			select {
-			case <-p.exited:
-			case <-time.After(40 * time.Millisecond):
+			// make sure it is OUR process that listens there (a process that lost the race for the port exits, but on
+			// a loaded machine not at once - thorough run #10 talked to a neighbour's pool that way)
+			mine := false
+			for i := 0; i < 50 && !mine; i++ {
+				select {
+				case <-p.exited:
+					i = 50
+					continue
+				default:
+				}
+				hc := &http.Client{Timeout: 2 * time.Second}
+				resp, err := hc.Post("http://"+p.addr+"/", "application/json", strings.NewReader(`{"jsonrpc":"2.0","id":1,"method":"vipnode_ping","params":[]}`))
+				if err == nil {
+					got := resp.Header.Get("Access-Control-Allow-Origin")
+					resp.Body.Close()
+					if got == token {
+						mine = true
+						break
+					}
+					break // somebody else's pool answers on this port
+				}
+				time.Sleep(50 * time.Millisecond)
+			}
+			if mine {
 				return p, nil
 			}
 		}
